@@ -16,6 +16,16 @@ encoders and decoders and records (value, encoding, decoded) triples.
          _remove_empty that LdapObject.create applies: LDAP stores no empty
          attribute) -> from_entry; recorded: N(x), N(N(x)) and the entry of N(x)
 
+  ldapupd pairs (v1, v2) of one schema: the directory holds the entry
+         LdapObject.create makes of v1; LdapObject.update's entry of v2 goes
+         through the REAL Admin.update (fetch the mentioned attributes, real
+         _diff_entries, MODIFY_ADD/REPLACE/DELETE triples) onto an exact
+         in-memory entry (attribute -> list of values, modifications applied
+         the way ldap3/LDAP define them); read back with from_entry.  Recorded
+         next to it: what the set-wise specification of update gives (every
+         attribute family the new entry mentions ends up with the new entry's
+         non-empty values, the rest is untouched), decoded.
+
 Abstract values are the ones Codec.tla exports: strings, integers, booleans,
 tuples, records; free-form objects are tagged trees (["s",..] ["i",..] ["b",..]
 ["n",0] ["f",repr] ["l",[..]] ["d",[[key,value],..]] keys ascending).
@@ -24,6 +34,7 @@ reason in err (d is then a copy of v, never compared).
 """
 import copy
 import json
+import logging
 import os
 import shutil
 import types
@@ -44,6 +55,10 @@ from treadmill.trace.app import events as app_events  # noqa: E402
 from treadmill.trace.app import zk as app_zk  # noqa: E402
 from treadmill.trace.server import events as server_events  # noqa: E402
 from treadmill.trace.server import zk as server_zk  # noqa: E402
+
+# bool-as-text / unparseable-rule warnings of the code under test are expected here
+logging.getLogger('treadmill.admin._ldap').setLevel(logging.CRITICAL + 1)
+logging.getLogger('treadmill.rulefile').setLevel(logging.ERROR)
 
 NUMERALS = '0123456789abcdefghijklmnopqrstuvwxyzABCDEFGHIJKLMNOPQRSTUVWXYZ'
 
@@ -337,10 +352,85 @@ class Codecs:
                     n=dict(schema=v['schema'], obj=to_abs(n1)),
                     d=dict(schema=v['schema'], obj=to_abs(n2)))
 
+    # -- ldap update
+    @staticmethod
+    def _family(attr):
+        return attr.split(';', 1)[0].lower()
+
+    def ldapupd(self, u):
+        import ldap3
+        cls = self.ldap[u['schema']]
+        x1, x2 = to_py(u['v1']), to_py(u['v2'])
+        try:
+            stored = _ldap._remove_empty(cls.to_entry(copy.deepcopy(x1)))    # LdapObject.create
+            before = copy.deepcopy(stored)
+            new_entry = cls.to_entry(copy.deepcopy(x2))                      # LdapObject.update
+            mentioned = {self._family(k) for k in new_entry}
+
+            def get(_dn, _query, attrs, dirty=False):    # pylint: disable=unused-argument
+                want = {a.lower() for a in attrs}
+                return {k: list(v) for k, v in stored.items() if self._family(k) in want}
+
+            def modify(_dn, changes):
+                for attr, ops in (changes or {}).items():
+                    key = next((k for k in stored if k.lower() == attr.lower()), attr)
+                    for op, values in ops:
+                        if op == ldap3.MODIFY_ADD:
+                            stored[key] = list(stored.get(key, [])) + list(values)
+                        elif op == ldap3.MODIFY_REPLACE:
+                            if values:
+                                stored[key] = list(values)
+                            else:
+                                stored.pop(key, None)
+                        elif op == ldap3.MODIFY_DELETE:
+                            if values:
+                                stored[key] = [x for x in stored.get(key, []) if x not in values]
+                                if not stored[key]:
+                                    del stored[key]
+                            else:
+                                stored.pop(key, None)
+                        else:
+                            raise tlc.MachineryError('unknown modification %r' % (op,))
+
+            fake = types.SimpleNamespace(get=get, modify=modify)
+            # the set-wise specification of the update
+            spec = {k: v for k, v in before.items() if self._family(k) not in mentioned}
+            spec.update({k: list(v) for k, v in new_entry.items() if v})
+            try:
+                want = cls.from_entry(copy.deepcopy(spec))
+            except Exception as e:  # pylint: disable=broad-except
+                # the entry the specification itself prescribes cannot be decoded (an
+                # option-indexed object lost a sub-attribute family the new entry does
+                # not mention): not judged, counted
+                return dict(v=u, enc='', ok=True, err='%s: %s' % (type(e).__name__, e), d=['n', 0],
+                            want=['n', 0], alt=['n', 0], seteq=False, full=False, undecodable=True)
+            _ldap.Admin.update(fake, 'dn=verif', new_entry)                  # the real update
+            got = cls.from_entry(copy.deepcopy(stored))
+            # attributes whose old and new values are the same SET of the same size: the
+            # diff calls them equal and the old list stays
+            alt_entry = dict(spec)
+            for k, v in new_entry.items():
+                old = before.get(k)
+                if v and old and old != list(v) and len(old) == len(v) and \
+                        set(map(repr, old)) == set(map(repr, v)):
+                    alt_entry[k] = list(old)
+            alt = cls.from_entry(copy.deepcopy(alt_entry))
+            n2 = cls.from_entry(_ldap._remove_empty(cls.to_entry(copy.deepcopy(x2))))
+        except tlc.MachineryError:
+            raise
+        except Exception as e:  # pylint: disable=broad-except
+            return dict(v=u, enc='', ok=False, err='%s: %s' % (type(e).__name__, e), d=['n', 0],
+                        want=['n', 0], alt=['n', 0], seteq=False, full=False, undecodable=False)
+        return dict(v=u, enc='%s:%s' % (u['schema'], json.dumps(stored, sort_keys=True, default=str)),
+                    ok=True, err='', d=to_abs(got), want=to_abs(want), alt=to_abs(alt),
+                    seteq=(alt_entry != spec), full=(to_abs(want) == to_abs(n2)), undecodable=False)
+
     def run(self, fmt, v):
         """-> one recorded item {v, enc, ok, err, d[, n]}."""
         if fmt == 'ldap':
             return self.ldap_item(v)
+        if fmt == 'ldapupd':
+            return self.ldapupd(v)
         enc, dec = getattr(self, fmt)(v)
         if isinstance(dec, list) and dec and dec[0] == 'error' and fmt != 'zk':
             return dict(v=v, enc=enc, ok=False, err=dec[1], d=v)
@@ -355,7 +445,7 @@ def record(domain, formats=None):
     c = Codecs()
     try:
         out = []
-        for fmt in formats or ['rule', 'uniq', 'uid', 'event', 'evdict', 'zk', 'ldap']:
+        for fmt in formats or ['rule', 'uniq', 'uid', 'event', 'evdict', 'zk', 'ldap', 'ldapupd']:
             values = domain['event' if fmt == 'evdict' else fmt]
             out.append(dict(fmt=fmt, items=[c.run(fmt, v) for v in values]))
         return out
